@@ -17,13 +17,14 @@ EXPLANATION = (
     "Decides the driver-side clauses only. [structural] _inlineCallbacks (typestate (waiting[0], helper pending, fired) propagated over the CFG): "
     "the result Deferred fires at most once per run and nothing is resumed/registered after it; every exception of gen.send / "
     "throwExceptionIntoGenerator is caught (StopIteration/_DefGen_Return -> callback with e.value, BaseException -> errback()); a value "
-    "is sent and a Failure thrown, decided on a fresh isinstance test; the helper is registered for both outcomes and continues the same "
+    "is sent and a Failure thrown, decided on an isinstance flag recomputed after every definition of the outcome (def-use); the helper is registered for both outcomes and continues the same "
     "gen/status/context; a synchronously delivered result is read from waiting[1] before the slot is reset; every suspending return "
     "has stored in status.waitingOn the very object the helper was registered on. Cancellation: _handleCancelInlineCallbacks replaces "
     "status.deferred before its single call-out, which cancels exactly status.waitingOn, and returns the replacement; "
     "_addCancelCallbackToDeferred installs that handler as the first errback, keeps the old callbacks and errbacks the error the handler "
     "traps; _cancellableInlineCallbacks wires deferred/status/canceller consistently. Deferred.__iter__/__await__: yields itself while "
     "paused or without result, re-reads the result after every yield, returns a value / raises a Failure. "
+    "Included from C03: Deferred.cancel() forwards unconditionally from a called Deferred to the one it is chained to. "
     "Not decided (declined): that user generator code observes outcomes exactly as a synchronous call would (semantics of user code)."
 )
 RULE_KINDS = {
@@ -35,6 +36,8 @@ RULE_KINDS = {
     # everything else: typestate over the CFG, dominance / must-pass, def-use, exception escape, call-graph reachability
     "*": "structural",
 }
+INCLUDE = [("C03", ("cancel/forward",), "cancelling an inlineCallbacks Deferred reaches the Deferred the function is waiting on through Deferred.cancel() forwarding "
+            "from each already-called link to the one it is chained to (every survived cancellation adds a link): C03's forwarding clauses are necessary here")]
 ASSUMPTIONS = [
     "context.run(f, *a) calls f(*a) synchronously and propagates its exception (contextvars semantics)",
     "Failure.throwExceptionIntoGenerator(gen) is gen.throw(...) of the wrapped exception",
@@ -175,10 +178,14 @@ def check(ctx):
             ctx.check(any(is_name(t, res) for t, _ in targets_values(node.ast)), "resume/next-outcome", cons,
                       f"what the generator yields next is not stored in `{res}` (it is the object examined / awaited next)")
         # the isinstance test is fresh for every resume
-        fresh_from = [d for d in name_assign_nodes(g, res) if d not in M.resumes] + [g.entry]
+        # def-use: EVERY definition of the outcome that reaches a send/throw decision - the value the generator yielded last time
+        # (the resume statement itself) included - is followed by a recomputation of the flag before that decision
+        fresh_from = list(name_assign_nodes(g, res)) + [g.entry]
         wit = avoiding_path(g, fresh_from, M.resumes, isf_nodes) if isf_locals else None
-        ctx.check(wit is None, "resume/send-or-throw", q + " | <failure test is fresh>",
-                  "the send/throw decision uses an isinstance test taken before the outcome was (re)assigned", witness=g.describe(wit))
+        ctx.check(wit is None, "resume/decision-uses-this-iterations-outcome", q + " | <failure test is fresh>",
+                  f"the send/throw decision can use an `isinstance({res}, Failure)` flag computed before `{res}` was last assigned: after a failure "
+                  "was thrown in and handled, a plain value yielded next would be *thrown* into the generator (AttributeError on the value) / a later "
+                  "Failure would be sent as a value", witness=g.describe(wit))
 
     # ---- registration --------------------------------------------------------------------------------
     with group(ctx, "driver/registration"):
@@ -814,6 +821,12 @@ MUTANTS = [
                  (D, "            result = waiting[1]\n", "            result = waiting[0]\n"),
                  (D, "            # branch above would have been taken.\n\n            waiting[0] = True\n            waiting[1] = None\n", "            # branch above would have been taken.\n\n            waiting[0] = _GONE\n"),
                  (D, "def _gotResultInlineCallbacks(\n", "_HERE = object()\n_GONE = object()\n\n\ndef _gotResultInlineCallbacks(\n")], expect_rule=None),
+    Mutant("failure-flag-hoisted-out-of-the-loop", D, "    while 1:\n        try:\n            # Send the last result back as the result of the yield expression.\n            isFailure = isinstance(result, Failure)\n",
+           "    isFailure = isinstance(result, Failure)\n    while 1:\n        try:\n            # Send the last result back as the result of the yield expression.\n",
+           more=[(D, "            result = waiting[1]\n            # Reset waiting to initial values for next loop.", "            result = waiting[1]\n            isFailure = isinstance(result, Failure)\n            # Reset waiting to initial values for next loop.")],
+           expect_rule="resume/decision-uses-this-iterations-outcome"),
+    Mutant("cancel-forwarded-only-to-uncalled-links", D, "        elif isinstance(self.result, Deferred):\n            # Waiting for another deferred -- cancel it instead.\n",
+           "        elif isinstance(self.result, Deferred) and not self.result.called:\n            # Waiting for another deferred -- cancel it instead.\n", expect_rule="C03:cancel/forward"),
 ]
 SILENT = [
     Silent("cancel-attribute-directly", D, "    awaited = status.waitingOn\n    assert awaited is not None\n    awaited.cancel()\n", "    assert status.waitingOn is not None\n    status.waitingOn.cancel()\n"),
